@@ -2,6 +2,7 @@
 package e2
 
 import (
+	"time"
 	"context"
 	"errors"
 	"fmt"
@@ -253,15 +254,47 @@ func Sweep(r *core.Report, models []*ref.Model, o SweepOpts, fn func(e *Env, w *
 	if o.U == nil {
 		o.U = ref.DefaultUniverse()
 	}
-	r.Parallel(len(models), func(i int) {
-		m := models[i]
+	// A model with a large pool is split into several jobs (each with its own server and store) that
+	// take the worlds in turn, so that one heavy model does not become the tail of the sweep.
+	type job struct{ mi, part, parts int }
+	var jobs []job
+	for mi, m := range models {
+		n := len(ref.RelevantPool(m, o.U))
+		if o.FullPool {
+			n = len(ref.Pool(m, o.U))
+		}
+		parts := 1
+		if o.MaxWorlds == 0 && o.K >= 2 {
+			parts = 1 + n*n/600
+			if parts > 8 {
+				parts = 8
+			}
+		}
+		for p := 0; p < parts; p++ {
+			jobs = append(jobs, job{mi, p, parts})
+		}
+	}
+	r.Parallel(len(jobs), func(ji int) {
+		jb := jobs[ji]
+		m := models[jb.mi]
 		env, err := NewEnv(m, o.ServerOpts...)
 		if err != nil {
-			r.Count("models_rejected_by_server", 1)
+			if jb.part == 0 {
+				r.Count("models_rejected_by_server", 1)
+			}
 			return
 		}
 		defer env.Close()
-		r.Count("models", 1)
+		if jb.part == 0 {
+			r.Count("models", 1)
+		}
+		t0 := time.Now()
+		defer func() {
+			if d := time.Since(t0); d > 45*time.Second {
+				r.Count("models_taking_over_45s", 1)
+				r.Set(fmt.Sprintf("slow_model/%s/part%d-of-%d", m.Signature(), jb.part, jb.parts), d.Seconds())
+			}
+		}()
 		pool := ref.RelevantPool(m, o.U)
 		if o.FullPool {
 			pool = ref.Pool(m, o.U)
@@ -308,6 +341,9 @@ func Sweep(r *core.Report, models []*ref.Model, o SweepOpts, fn func(e *Env, w *
 					}
 				}
 				worlds++
+				if worlds%jb.parts != jb.part {
+					return
+				}
 				all := append([]ref.Tuple{}, ts...)
 				if o.FreshStore {
 					if err := env.NewStore(); err != nil {
@@ -359,7 +395,9 @@ func Sweep(r *core.Report, models []*ref.Model, o SweepOpts, fn func(e *Env, w *
 func sharesObjectRelation(ts []ref.Tuple) bool {
 	for i := range ts {
 		for j := i + 1; j < len(ts); j++ {
-			if ts[i].Obj == ts[j].Obj && ts[i].Rel == ts[j].Rel {
+			// only a typed wildcard next to another user of that type makes one request user match both rows
+			if ts[i].Obj == ts[j].Obj && ts[i].Rel == ts[j].Rel && ts[i].User != ts[j].User &&
+				ref.IsWild(ts[i].User) != ref.IsWild(ts[j].User) && ref.TypeOf(ts[i].User) == ref.TypeOf(ts[j].User) {
 				return true
 			}
 		}
